@@ -93,3 +93,9 @@ let () = register "armorspec" (function
     let bits = bits_of_string b in
     hex_or_dash (fs_spec_armor bits) ^ " " ^ string_of_z (fs_padding_to_six (z_of_int (List.length bits)))
   | _ -> "ERROR bad arguments for armorspec")
+
+(* armor <bits> -> util.encode_ascii_6(bits): "Ok <text hex> <fill>" *)
+let () = register "armor" (function
+  | [b] ->
+    str_m (fun (p, fill) -> hex_or_dash p ^ " " ^ string_of_int (int_of_nat fill)) (encode_ascii_6 (bits_of_string b))
+  | _ -> "ERROR bad arguments for armor")
